@@ -504,7 +504,7 @@ func TestPropAllocateTokenBucket(t *testing.T) {
 
 // TestPropCountMaxInflight: global-count, max-in-flight: the wrapper under arbitrary acquire results.
 func TestPropCountMaxInflight(t *testing.T) {
-	sub := stats.NewSub("count-max-in-flight", "rapid state machine on the real UpstreamLimiter in remote mode (global-count, max-in-flight, L <= G <= 10); the answers of the limiter server are delivered synchronously to the wrapper's SetLimit (hook-built AcquireResult): accept/limit with limit in {0,1,-1,-5,MinInt32,MaxInt32,G..G+3,1..G}, error strings, RequestIDTooOld, stale and reordered request times; ops readiness up/down, schema update followed by one reconcile round (new local/global limits, also while the server is failing; the new global limit is demanded from the next applied answer on), acquire, release, drain+probe; oracle: admitted-and-unreleased <= G at every admission (G+L under the listed open finding); after an error answer the probe admits between L and G (local limit, not none); not ready => exactly L; non-trivial = a hostile limit, an error answer or a stale request time was delivered; distinct by FNV-64 of the op trace")
+	sub := stats.NewSub("count-max-in-flight", "rapid state machine on the real UpstreamLimiter in remote mode (global-count, max-in-flight, L <= G <= 10); the answers of the limiter server are delivered synchronously to the wrapper's SetLimit (hook-built AcquireResult): accept/limit with limit in {0,1,-1,-5,MinInt32,MaxInt32,G..G+3,1..G}, error strings, RequestIDTooOld, stale and reordered request times; ops readiness up/down, schema update followed by one reconcile round (new local/global limits, also while the server is failing; the new global limit is demanded from the next applied answer on), acquire, release, drain+probe; oracle: admitted-and-unreleased <= G at every admission (G+L under the listed open finding); after an error answer the probe admits between L and G (local limit, not none); not ready => exactly L; otherwise exactly the limit of the last answer that was not stale (kept in [1,G] if accepted, [0,G] if refused): a stale answer, also a stale error, changes nothing; non-trivial = a hostile limit, an error answer or a stale request time was delivered; distinct by FNV-64 of the op trace")
 	known := findings.Open(overlapFinding)
 	stats.Check(t, stats.N(5000, 30000), func(t *rapid.T) {
 		l := int32(rapid.IntRange(1, 5).Draw(t, "L"))
@@ -531,6 +531,8 @@ func TestPropCountMaxInflight(t *testing.T) {
 		pendingG := int32(0)    // global limit of a schema update that no applied answer has followed yet
 		lLow := l               // smallest local limit configured since the last applied answer
 		gMax := g               // largest global limit ever configured in this history
+		lastKind := ""          // "accept" / "refuse": kind of the last applied answer since the last schema update ("" = none)
+		lastLimit := int32(0)   // its limit
 		sub.Eval()
 		count := func() (loc, rem int) {
 			for _, h := range handles {
@@ -611,6 +613,10 @@ func TestPropCountMaxInflight(t *testing.T) {
 					lastApplied = rt
 					lLow = l
 					errorMode = false // an applied answer ends the error mode (stale ones are skipped by the wrapper)
+					lastKind, lastLimit = "refuse", res.Limit
+					if res.Accept {
+						lastKind = "accept"
+					}
 					if pendingG > 0 {
 						// this answer is clamped to the new global limit; requests admitted under the previous
 						// configuration are drained so that the ledger is judged against one limit
@@ -653,6 +659,7 @@ func TestPropCountMaxInflight(t *testing.T) {
 					lLow = nl
 				}
 				pendingG = ng
+				lastKind = ""
 				if ng > g {
 					g = ng // until the next applied answer either bound may be in force
 				}
@@ -694,6 +701,23 @@ func TestPropCountMaxInflight(t *testing.T) {
 					}
 				} else if n > int(g) && !errorMode {
 					t.Fatalf("%d requests admitted from empty exceed the global limit %d\ntrace: %s", n, g, trace)
+				} else if !errorMode && pendingG == 0 && lastKind != "" {
+					// the last answer the server gave (stale and skipped ones do not count) is in force exactly: an accepted
+					// limit is kept in [1, G], a refusal's in [0, G]
+					want := lastLimit
+					if lastKind == "accept" && want < 1 {
+						want = 1
+					}
+					if want < 0 {
+						want = 0
+					}
+					if want > g {
+						want = g
+					}
+					if n != int(want) {
+						t.Fatalf("the last applied answer of the limiter server was %s with limit %d (global limit %d): %d requests should be admitted from empty, %d are\ntrace: %s", lastKind, lastLimit, g, want, n, trace)
+					}
+					sub.Class("probe-matches-the-last-applied-answer")
 				}
 				for _, h := range handles {
 					h.fc.Release()
